@@ -61,7 +61,7 @@ def run(ctx):
                  ("C08-R5", "a slot is initialised iff its mask bit is set (C04 pairing rules)"), ("C08-R6", "a value whose mask update unwinds is removed again")]:
         ctx.rule(r, t)
     for cfg in configs(ctx.tier):
-        facts = ctx.facts(cfg)
+        facts = ctx.xfacts(cfg)
         r1r2(ctx, facts)
         r3(ctx, facts)
         r4(ctx, facts)
@@ -231,6 +231,8 @@ def allowed_site(b):
 
 
 def r4(ctx, facts):
+    from ..summaries import forgotten_guards
+    guards = forgotten_guards(facts)
     sites = []
     other = []
     for b in facts.bodies:
@@ -240,7 +242,15 @@ def r4(ctx, facts):
             if c.get("crate") == "specs" or t.get("exp"):
                 continue
             if c.get("name") in ESCAPING and any(x in p for x in ESC_PATHS):
-                (sites if allowed_site(b) else other).append((b, bb, p))
+                # the function whose source the call was written in (the body itself unless it was inlined from a helper)
+                sb = facts.body(b.src(bb)) or b
+                ok = allowed_site(sb) or allowed_site(b)
+                if not ok and c.get("name") == "forget":
+                    # defusing a rollback guard (C04-R1 / C19-R4 check what the guard does)
+                    ao = b.arg_origin(bb, 0)
+                    if ao[0] == "agg" and b.blocks[ao[1]]["stmts"][ao[2]]["rv"].get("adt") in guards:
+                        ok = True
+                (sites if ok else other).append((b, bb, p))
     ctx.floor("C08-R4", "ownership-escaping primitive call sites in the allowed bodies", len(sites), 12)
     ctx.note("[%s] %d ownership-escaping sites in storage impls / cell / generation / not_present_insert" % (facts.config, len(sites)))
     for b, bb, p in other:
